@@ -4,13 +4,11 @@ From Unimock Require Import Model.Base Macro.RustPat Macro.Matching Spec.RustMat
 (* (main) for EVERY analysed macro input (any number of alternatives, any
    patterns, any guard, any eq!/ne! operands), every argument tuple and either
    reporter state: the closure that `generate` emits accepts exactly when the
-   Rust match of the spec selects an arm -- outside the class of F3 (a bare
-   top-level `||` guard next to an eq!/ne! operand), and for arguments on which
+   Rust match of the spec selects an arm -- for arguments on which
    the emitted match type-checks as far as the string/slice coercions go
    ([well_coerced]: a string/slice literal pattern only ever meets an argument
    that the guessed coercion turned into its plain view). *)
 Theorem C06_accepts_iff_rust_match : forall alts g args enabled,
-  f3_class (alts, g) = false ->
   well_coerced alts args = true ->
   accepts (alts, g) enabled args = rust_match (alts, g) args.
 Proof. exact compile_is_rust_match. Qed.
@@ -28,19 +26,21 @@ Theorem C06_empty_accepts_everything : forall enabled args,
   accepts ([], None) enabled args = true /\ rust_match ([], None) args = true.
 Proof. intros. repeat split. Qed.
 
-(* F3: the statement is FALSE inside the excluded class, on the unchanged tree:
-   matching!((eq!(&3), y) if *y > 5 || *y < 0) accepts (4, 7) *)
-Theorem C06_refuted : exists input args,
+(* finding F3 (repaired in /repo by a fix: commit): a bare top-level `||` guard next to an
+   eq!/ne! operand used to swallow the comparison; with the user's guard parenthesised the
+   former witness  matching!((eq!(&3), y) if *y > 5 || *y < 0)  on (4, 7)  is rejected, as
+   the Rust match rejects it *)
+Theorem C06_f3_repaired : exists input args,
   f3_class input = true /\ well_coerced (fst input) args = true /\
-  accepts input false args = true /\ accepts input true args = true /\ rust_match input args = false.
+  accepts input false args = false /\ accepts input true args = false /\ rust_match input args = false.
 Proof.
   exists ([[PCmp false (VInt 3); PBind "y"]],
           Some (BOr (BAtom (ACmp OGt (OVar "y") (OConst 5))) (BAtom (ACmp OLt (OVar "y") (OConst 0))))).
   exists [VInt 4; VInt 7]. vm_compute. repeat split.
 Qed.
 
-(* the mechanism of F3, for arbitrary guards: joined tokens attach to the last
-   operand of a top-level `||`; with any other left operand joining is `&&` *)
+(* why the parentheses matter, for arbitrary guards: joined tokens attach to the last
+   operand of a bare top-level `||`; with any other left operand joining is `&&` *)
 Theorem C06_guard_join : forall A (ev : A -> bool) (x y c : bexp A) (ls : list (bexp A)) (acc : bexp A),
   beval ev (concat_and (BOr x y) c) = beval ev x || beval ev (concat_and y c) /\
   (is_or acc = false ->
